@@ -29,7 +29,8 @@ def run(tier):
             cs = os.path.join(sc, "sc.%s.cases.ndjson" % cfg)
             with open(cases) as f, open(cs, "w") as o:
                 for i, line in enumerate(f):
-                    if vlib.pick_hash(i, 5, vlib.seed()): o.write(line)
+                    # the recoding / decomposition cases are cheap and word-size sensitive: always; the multiplications by pseudo-random fifths
+                    if '"op":"powx.decompose"' in line or '"op":"wnaf.recode"' in line or '"op":"mul.powx"' in line or vlib.pick_hash(i, 5, vlib.seed()): o.write(line)
         out = os.path.join(sc, "sc.%s.trace.ndjson" % cfg)
         run.drive(CURVE, cfg, ["replay", cs, out]); traces.append(out)
     nrand = 100 if tier == "quick" else 2000
